@@ -352,6 +352,18 @@ def touch(b, *a, **k):
     return b
 
 
+def sum0(b):
+    return np.sum(b, axis=0)
+
+
+def sum_last(b):
+    return np.sum(b, axis=-1)
+
+
+def ptp1(v):
+    return np.max(v) - np.min(v)
+
+
 def mb_or_np(m, v):
     """v passed through a recording block function (dask) / unchanged (NumPy)."""
     if m is np:
